@@ -35,7 +35,12 @@ Inductive op :=
 | TC (b : blk) (txs : list tx)   (* Confirm::transactions_confirmed(header of b, txs, height of b) *)
 | BB (b : blk)                   (* Confirm::best_block_updated(header of b, height of b) *)
 | BD (fork_point : blk)          (* Listen::blocks_disconnected(fork point) *)
-| TU (txid : Z).                 (* Confirm::transaction_unconfirmed *)
+| TU (txid : Z)                  (* Confirm::transaction_unconfirmed *)
+| AU (dep : Z) (tag : Z).        (* ChannelMonitor::update_monitor with a counterparty-commitment update that
+                                    arrives when transaction [dep] (the funding spend) is already confirmed:
+                                    [fail_htlcs_from_update_after_funding_spend]. An update applied BEFORE
+                                    [dep] confirms is not an operation here: it shows in the events [dep]
+                                    yields when it confirms ([fail_unbroadcast_htlcs]). *)
 
 (** Listen::block_connected = transactions_confirmed with the whole block *)
 Definition BC (b : blk) : op := TC b (b_txs b).
@@ -88,6 +93,26 @@ Definition step (st : state) (o : op) : state :=
           mkSt (best_h st) (best_hash st) (filter (fun e => e_height e <? e_height e0) (awaiting st))
                (done_txids st) (emitted st)
       | None => st
+      end
+  | AU dep tag =>
+      match find (fun e => e_txid e =? dep) (awaiting st) with
+      | Some e0 =>
+          (* the spend still awaits its threshold: queue the consequence as an entry of THAT transaction --
+             its txid, its height, its block --, so that whatever retracts the spend retracts it too.
+             (The real monitor matures such an entry at the next [block_confirmed]; the model does it at
+             once, which is unobservable at [get_relevant_txids] and at any later block.) *)
+          block_confirmed
+            (mkSt (best_h st) (best_hash st)
+               (awaiting st ++ [mkEntry dep (e_height e0) (e_hash e0) tag ANTI_REORG_DELAY])
+               (done_txids st) (emitted st))
+      | None =>
+          match find (fun m => m_txid m =? dep) (emitted st) with
+          | Some m0 =>
+              (* the spend is irreversibly confirmed: conclude at once, on the strength of that burial *)
+              mkSt (best_h st) (best_hash st) (awaiting st) (done_txids st)
+                   (emitted st ++ [mkEm dep tag (m_conf m0) (m_at m0)])
+          | None => st
+          end
       end
   end.
 
